@@ -172,6 +172,20 @@ def latin1_tables(impl):
     return out
 
 
+def big_tables(ctx, impl):
+    """LONG tables of short records (more records than any buffer, queue or counter of the readers and writers holds at once; a
+    whole file of short records reaches the rbql-js reader as ONE chunk): the round trip is the identity at every length"""
+    rng = ctx.rng
+    out = []
+    for n in ([1030, 2100] if ctx.tier == 'quick' else [1023, 1024, 1025, 1026, 2049, 4100, 9000, 20000]):
+        for pol, dlm in (('simple', ','), ('quoted', ','), ('quoted_rfc', ';')):
+            if ctx.tier == 'quick' and rng.random() < 0.4:
+                continue
+            rows = [[str(i), rng.choice(['v', 'w', '', 'a b'])] for i in range(n)]
+            out.append({'impl': impl, 'pol': pol, 'dlm': dlm, 'sep': rng.choice(SEPS), 'enc': 'utf-8', 'header': None, 'rows': rows, 'kind': 'big'})
+    return out
+
+
 def random_tables(ctx, impl):
     rng = ctx.rng
     n = (7000 if impl == 'py' else 4000) if ctx.tier == 'quick' else (300000 if impl == 'py' else 120000)
@@ -364,11 +378,11 @@ def run(ctx):
     ctx.rule = ('tables over {quote, delimiter characters, space, TAB, CR, LF, ordinary, non-ASCII, latin-1 code points, BOM} x 5 policies x '
                 'delimiters {, ; TAB | space :: ab aa non-ASCII, and the ill-formed " ;" "  "} x {LF, CRLF, CR} x {None, utf-8, latin-1}: '
                 'every single-record table of <= 2 fields over the class alphabet up to the field-length bound, two-record tables of short rows, '
-                'random tables with None / int / nested list cells, headers, ragged rows; non-trivial = distinct table whose output contains a quote, '
+                'random tables with None / int / nested list cells, headers, ragged rows; long tables of short records (1030 / 2100 records; thorough: up to 20000); non-trivial = distinct table whose output contains a quote, '
                 'sets a flag, fails, or has more than one record')
     ctx.exhaustive = True
     for impl in ('py', 'js'):
-        cases = exhaustive_tables(ctx, impl) + latin1_tables(impl) + random_tables(ctx, impl)
+        cases = exhaustive_tables(ctx, impl) + latin1_tables(impl) + random_tables(ctx, impl) + big_tables(ctx, impl)
         args, model, exp, got = evaluate(ctx, impl, cases, True)
         ctx.compare(cases, exp, got, THEOREM, rel=rel, corrupt=corrupt, describe=describe, shrink=shrink(ctx))
         stats(ctx, cases, exp, got)
